@@ -62,6 +62,10 @@ def main():
             rc, out = pydemo("clean")
             meta["demo_passes_without"] = ("PASS" in out and "FAIL" not in out)
         rc, out = sh(f"git apply {patch}", cwd=wt)
+        if rc != 0:
+            # the repository moved on since the seed was written (a later fix: commit touched the same lines)
+            rc, out = sh(f"git apply --3way {patch}", cwd=wt)
+            meta["applied_3way"] = (rc == 0)
         meta["patch_applies"] = (rc == 0)
         if rc != 0:
             meta["error"] = out[-400:]
